@@ -104,6 +104,11 @@ def run(op):
         import cdd.docstring.parse
         ir = cdd.docstring.parse.docstring(op["text"], **(op.get("parse_opts") or {}))
         return cdd.docstring.emit.docstring(ir, **opts)
+    if kind == "parse_docstring_emit":
+        # a bare docstring (an interface without a name) parsed, then emitted in another shape
+        import cdd.docstring.parse
+        ir = cdd.docstring.parse.docstring(op["text"], **(op.get("parse_opts") or {}))
+        return emit(op["emitter"], ir, opts)
     if kind == "merge_all":
         # what gen / exmod do when the output module already exists: merge the two modules, then their __all__ lists
         import cdd.shared.ast_utils
